@@ -195,7 +195,7 @@ def trigger_instant(sc: dict, iv: dict, obs: dict) -> Optional[float]:
     return None
 
 
-def monitors(ctx: Ctx, sc: dict, obs: dict, iv: dict) -> None:
+def monitors(ctx: Any, sc: dict, obs: dict, iv: dict) -> None:      # ctx: Ctx or worker.Findings
     case = {"scenario": sc}
     T = trigger_instant(sc, iv, obs)
 
@@ -304,7 +304,7 @@ def monitors(ctx: Ctx, sc: dict, obs: dict, iv: dict) -> None:
 # --------------------------------------------------------------------------------------------------------------
 # model vs implementation
 # --------------------------------------------------------------------------------------------------------------
-def compare(ctx: Ctx, sc: dict, iv: dict, m: dict, T: Optional[float] = None) -> None:
+def compare(ctx: Any, sc: dict, iv: dict, m: dict, T: Optional[float] = None) -> None:      # ctx: Ctx or worker.Findings
     mv = wk.model_view(m)
     diffs = []
     # the model triggers at the instant the trigger is due, the harness when the connections have reached their phase:
@@ -385,6 +385,20 @@ def evaluate(ctx: Ctx, scs: List[dict], procs: int = 14) -> None:
         wk.check_runtime_constants(ctx, flags)
     obs = wk.run_disciplined(ctx, scs, procs)       # timing discipline: see worker.run_disciplined
     model = ctx.model([wk.model_request(sc, "c15.run", flags) for sc in scs])
+
+    def judge(f: Any, i: int, sc: dict, o: dict) -> None:
+        """one run of one scenario: the property monitors and the model comparison, collected in `f`"""
+        iv = wk.impl_view(o)
+        monitors(f, sc, o, iv)
+        if model is not None:
+            r = model[i]
+            if "ok" not in r:
+                raise wk.HarnessFailure(f"hcdriver rejected scenario {sc['kinds']}/{sc['worker']}: {r}")
+            compare(f, sc, iv, r["ok"], trigger_instant(sc, iv, o))
+
+    # report rule (worker.judge_with_reruns): a scenario about which the monitors or the comparison say something is first run
+    # again alone; only what it says again is reported (with the re-run's observation), the rest is counted as not reproduced
+    obs = wk.judge_with_reruns(ctx, scs, obs, judge)
     for i, (sc, o) in enumerate(zip(scs, obs)):
         iv = wk.impl_view(o)
         ctx.evaluations += 1
@@ -398,12 +412,6 @@ def evaluate(ctx: Ctx, scs: List[dict], procs: int = 14) -> None:
         if sc["kinds"] or sc["source"] == "max_requests":
             ctx.distinct([sc["worker"], sc["source"], sorted(sc["kinds"]), sc["off"]])
         ctx.sample({"scenario": sc, "serve": o["serve"], "events": [e for e in o["events"] if e[2] != "log"][:40]}, cap=3)
-        monitors(ctx, sc, o, iv)
-        if model is not None:
-            r = model[i]
-            if "ok" not in r:
-                raise wk.HarnessFailure(f"hcdriver rejected scenario {sc['kinds']}/{sc['worker']}: {r}")
-            compare(ctx, sc, iv, r["ok"], trigger_instant(sc, iv, o))
 
 
 def run(ctx: Ctx) -> None:
